@@ -4,7 +4,9 @@ correspondence: (1) every modelled `while` loop: real function vs S2T.Loops mode
 iteration count, counted with sys.settrace on the loop located by its inventory key); (2) explicit limits at
 -1/0/+1 (forged stat / forged sizes / real sparse files, real 10 MiB members), which members are read / decoded /
 written (TAR: the BYTES every extractfile handle delivers, archives with hard-link / symlink / directory / FIFO entries
-pointing at in-limit and oversize members), ODS sheet shapes incl. covered cells, text:s paragraphs, XLSX used-cell sets.
+pointing at in-limit and oversize members; ZIP / TAR / 7z archives whose member NAMES repeat — the bytes every ZipFile.open /
+extractfile handle delivers; 7z folders with coder CHAINS — the output of every stage and of every lzma decoder call), ODS sheet
+shapes incl. covered cells, text:s paragraphs, XLSX used-cell sets.
 search: the property statement itself on the real code (boundary lattice; iteration counts, copied bytes, allocated
 cells, bytes read per member, decoded / written members on amplifying inputs; repeat independence of empty runs),
 independent of the Lean model.
@@ -28,7 +30,9 @@ RULE = ("loops: per modelled loop a structured stream (BIFF records, JPEG segmen
         "PNG chunk chains, RTF token soup, 7z header properties) + a malformed stream over marker-rich alphabets + fixed "
         "adversarial cases (zero-length records, maximal lengths, markers at the last offsets); limits: sizes limit-1/limit/limit+1 "
         "for read_file (6 limits), the 7z archive size, ZIP/TAR/7z members (real payloads), TAR archives mixing regular members around "
-        "the limit with hard links / symlinks (resolving, dangling, chained, forged header size) / directories / FIFOs, ODS sheets with "
+        "the limit with hard links / symlinks (resolving, dangling, chained, forged header size) / directories / FIFOs, ZIP / TAR archives of 2-5 "
+        "entries drawn from 1-4 names (an in-limit entry followed by an oversize last entry of the same name and the other orders), 7z archives "
+        "with coder chains (filter <- LZMA / LZMA2, refused filters) and repeated names, ODS sheets with "
         "random repeat attributes on empty, non-empty and covered cells, <text:p> with text:s counts, XLSX used-cell sets within 30x30; "
         "XML parts: random (BOM, leading whitespace, XML declaration, DOCTYPE, 0-4 internal entities made of literals / references to earlier "
         "entities / &amp;, character data with references incl. undeclared ones) + nested-entity and quadratic blow-up parts, through the real "
@@ -43,6 +47,9 @@ ASSUMPTIONS = [
     "lzma / zlib / zipfile / tarfile / defusedxml / olefile / pypdf internals: their own cost on hostile input is not modelled",
     "tarfile: what extractfile(member).read() delivers is an INPUT of the TAR model (taken from plain tarfile on the same archive); "
     "the bound assumes only that a regular member's handle delivers at most the size in the member's own header (TarFaithful)",
+    "zipfile / tarfile: an entry's own handle delivers at most its declared size (Faithful); a name resolves to the LAST entry carrying it "
+    "(ZipFile.getinfo, TarFile.getmember) — both taken from plain zipfile / tarfile on the same archive in the correspondence",
+    "7z chains: a decoder stage yields min(bound, size its stream expands to), a filter stage min(bound, input); chains written have one compressor, last",
     "text:c values are ASCII digit strings in the model (signs, underscores, non-numeric values: not modelled); openpyxl read-only "
     "iter_rows pads to the declared dimension (modelled as the rectangle A1..(max row, max col) of the used cells, dimension = that corner)",
     "peak RSS and wall time are run-time quantities: no theorem speaks about them; proved cost notions are iteration counts, bytes "
@@ -58,11 +65,17 @@ ASSUMPTIONS = [
 TRUSTED = ["sys.settrace line events as iteration counter (harness/builders/c12_trace.py)",
            "minimal 7z writer harness/builders/c12_sevenzip.py (7zFormat.txt layout)",
            "CPython tarfile as TAR writer and as the reference for what a link member's handle delivers (harness/builders/c12_limits.py:tar_reference)",
+           "tools/gen/c12.py:_read_origin (where the argument of zf.read / zf.open / tf.extractfile comes from) and _sz_bound_sites (max_output plumbing); "
+           "the ZipFile.open / lzma-module stand-ins and _apply_decoder probe of harness/builders/c12_limits.py",
            "minimal ODF / XLSX writers harness/builders/c12_amplify.py; tools/gen/c12.py:_tar_loop_facts (evaluates the loop's type guards on real TarInfo objects)",
            "tools/gen/c12.py:_xml_chains (XML parser calls, forbid_* keywords against the installed defusedxml's signature, enclosing except handlers "
            "evaluated against the real exception hierarchy); package / part writers harness/builders/c12_xmlparts.py; tracemalloc as peak-memory meter"]
 
 MB = 1024 * 1024
+# coder chains of a 7z folder, coder 0 first (None: one LZMA coder).  Filters stand in front of ONE compressor, as 7-Zip writes them
+SZ_CHAINS = [None, None, ["bcj", "lzma2"], ["bcj", "lzma"], ["copy", "lzma2"], ["bcj", "copy"], ["bcj", "bcj", "lzma2"], ["copy", "bcj", "lzma"]]
+SZ_REFUSED_CHAINS = [["delta", "lzma2"], ["arm", "lzma"], ["ppc", "lzma2"], ["sparc", "bcj", "lzma2"]]      # the library refuses these filters
+SZ_DECODABLE = ("copy", "lzma", "lzma2", "bcj")
 LINEAR_C = 2          # oracle: a byte scanner may use at most LINEAR_C * (len + 1) iterations
 AMP_K = 16            # oracle: output cells / allocated cells per input byte
 
@@ -232,6 +245,131 @@ def _limits_correspondence(ctx):
                                  f"impl decoded={got['decoded']} written={got['written']} model={o['runs']}",
                                  case={"limit": lim, "folders": folders}))
 
+
+    # ---- ZIP / TAR archives whose member NAMES repeat: the bytes every handle delivers (zf.open / zf.read /
+    #      tf.extractfile), against the model fed with what plain zipfile / tarfile say about each entry
+    ncfgs = []
+    pool = ["a.txt", "b.txt", "d/a.txt", "c.txt"]
+    for _ in range(ctx.n(10, 100)):
+        lim = rng.choice([50, 1000, 4096])
+        ents = []
+        for _e in range(rng.randint(2, 5)):
+            ents.append({"name": rng.choice(pool[:rng.choice([1, 2, 4])]),
+                         "size": max(0, rng.choice([0, 1, lim - 1, lim, lim + 1, 2 * lim, rng.randint(0, 3 * lim)])),
+                         "stored": rng.random() < 0.3})
+        ncfgs.append((lim, ents))
+    for lim in (50, 1000):
+        ncfgs += [(lim, [{"name": "a.txt", "size": 10}, {"name": "a.txt", "size": lim + 1}]),
+                  (lim, [{"name": "a.txt", "size": lim + 1}, {"name": "a.txt", "size": 10}]),
+                  (lim, [{"name": "a.txt", "size": lim}, {"name": "b.txt", "size": 3}, {"name": "a.txt", "size": 3 * lim}, {"name": "a.txt", "size": lim - 1}])]
+    ncfgs.append((None, [{"name": "report.txt", "size": 27}, {"name": "report.txt", "size": 10 * MB + 1}]))
+    reqs, exp = [], []
+    for lim, ents in ncfgs:
+        eff = lim if lim is not None else A.ArchiveConfig().max_memory_size
+        for kind in ("zip", "tar"):
+            if kind == "zip":
+                data = X.zip_archive(ents)
+                ref = X.zip_reference(data)
+                got = X.zip_loop(lim, data)
+                real = [h[3] for h in got["handles"]]
+            else:
+                data = X.tar_archive([{"name": e["name"], "type": "reg", "size": e["size"]} for e in ents], gz=rng.random() < 0.7)
+                ref = [{"name": r["name"], "declared": r["size"], "delivers": r["delivers"] or 0} for r in X.tar_reference(data)]
+                got = X.tar_loop(lim, data)
+                real = [n for _, n in got["chunks"]]
+            names = sorted({r["name"] for r in ref})
+            reqs.append({"op": "c12.named_loop", "kind": kind, "limit": eff,
+                         "entries": [{"name": names.index(r["name"]), "declared": r["declared"], "delivers": r["delivers"]} for r in ref]})
+            exp.append((kind, lim, ents, ref, got, real))
+    outs = ctx.drive(reqs)
+    for (kind, lim, ents, ref, got, real), o in zip(exp, outs):
+        ctx.case(("named", kind, lim, repr(ents)))
+        dup = len({e["name"] for e in ents}) < len(ents)
+        eff = lim if lim is not None else A.ArchiveConfig().max_memory_size
+        last_over = any(e["size"] <= eff and any(f["name"] == e["name"] for f in ents[i + 1:]) and
+                        [f for f in ents if f["name"] == e["name"]][-1]["size"] > eff for i, e in enumerate(ents))
+        ctx.count(f"members/{kind}-names/" + ("in-limit-entry-then-oversize-last-entry-of-the-same-name" if last_over else
+                                               "duplicate-names" if dup else "distinct-names"))
+        if "drv_error" in o or got["err"] is not None or o["delivered"] != real:
+            broken.append(Broken("correspondence", "c12.named_loop." + kind, f"impl read={real} ({got}) model={o} reference={ref}",
+                                 case={"kind": "named_members", "archive": kind, "limit": lim, "entries": ents}))
+
+    # ---- 7z: folders with a coder CHAIN (filter <- LZMA / LZMA2, as 7-Zip writes with -mf=BCJ / -mf=Delta), the output of
+    #      EVERY stage; 7z members whose names repeat (written to / read back from the temp directory by name)
+    chcfgs = []
+    for _ in range(ctx.n(10, 80)):
+        lim = rng.choice([50, 1000])
+        folders, chains, k = [], [], 0
+        for _f in range(rng.randint(1, 3)):
+            files = []
+            for _e in range(rng.randint(1, 3)):
+                ext = rng.choice([".txt", ".txt", ".txt", ".bin"])
+                nm = f"f{k}{ext}" if rng.random() < 0.7 or not k else "f0.txt"
+                files.append((nm, max(1, rng.choice([1, 2, lim - 1, lim, lim + 1, 3 * lim]))))
+                k += 1
+            folders.append(files)
+            chains.append(rng.choice(SZ_CHAINS))
+        chcfgs.append((lim, folders, chains))
+    for ch in SZ_CHAINS + SZ_REFUSED_CHAINS:
+        chcfgs.append((1000, [[("note.txt", 23), ("big.txt", 5000)]], [ch]))
+    chcfgs.append((1000, [[("a.txt", 10)], [("a.txt", 1001)]], [["bcj", "lzma2"], None]))
+    chcfgs.append((1000, [[("a.txt", 10), ("a.txt", 1001), ("a.txt", 7)]], [["bcj", "lzma"]]))
+    chcfgs.append((None, [[("note.txt", 23), ("big.txt", 10 * MB + 1)]], [["bcj", "lzma2"]]))
+    reqs, exp = [], []
+    for lim, folders, chains in chcfgs:
+        eff = lim if lim is not None else A.ArchiveConfig().max_memory_size
+        got = X.sevenzip_extract(lim, folders, chains=chains)
+        kept = [(nm, sz) for f in folders for nm, sz in f if nm.endswith(".txt")]
+        names = sorted({nm for nm, _ in kept})
+        reqs.append({"op": "c12.sz_extract", "fixed": fixed, "limit": eff, "empties": [],
+                     "folders": [[{"declared": sz, "keep": nm.endswith(".txt")} for nm, sz in f] for f in folders]})
+        reqs.append({"op": "c12.sz_read_back", "limit": eff, "entries": [{"name": names.index(nm), "declared": sz} for nm, sz in kept]})
+        exp.append((lim, folders, chains, got))
+    outs = ctx.drive(reqs)
+    creqs, cexp = [], []
+    for n_, (lim, folders, chains, got) in enumerate(exp):
+        o, rb = outs[2 * n_], outs[2 * n_ + 1]
+        case = {"kind": "7z_chain", "limit": lim, "folders": [[[nm, sz] for nm, sz in f] for f in folders], "chains": chains}
+        ctx.case(("7z-chain", lim, repr(folders), repr(chains)))
+        refused = any(ch and any(c not in SZ_DECODABLE for c in ch) for ch in chains)
+        for ch in chains:
+            ctx.count("members/7z-chain/" + ("single-coder" if not ch else "<-".join(ch)))
+        if len({nm for f in folders for nm, _ in f}) < sum(len(f) for f in folders):
+            ctx.count("members/7z-chain/duplicate-names")
+        if "drv_error" in o or "drv_error" in rb:
+            broken.append(Broken("correspondence", "c12.sz_chain", str(o.get("drv_error") or rb.get("drv_error")), case=case))
+            continue
+        if (got["err"] is not None) != refused:
+            broken.append(Broken("correspondence", "c12.sz_chain", f"real extraction: err={got['err']}, a refused coder in the chains: {refused}", case=case))
+            continue
+        dec_model = {i: r["decoded"] for i, r in enumerate(o["runs"]) if r["decoded"] is not None}
+        if not refused:
+            if sorted(dec_model) != sorted({i for i, _ in got["decoded"]}) or any(n != dec_model.get(i) for i, n in got["decoded"]) \
+                    or [n for _, n in got["entries"]] != rb["read_back"]:
+                broken.append(Broken("correspondence", "c12.sz_chain", f"impl decoded={got['decoded']} read back={got['entries']} "
+                                     f"model decoded={dec_model} read back={rb['read_back']}", case=case))
+                continue
+        if any(i not in dec_model or n > dec_model[i] for i, n in got["lzma_out"]):
+            broken.append(Broken("correspondence", "c12.sz_chain", f"an lzma decoder produced more than the bound: {got['lzma_out']} model bounds={dec_model}", case=case))
+            continue
+        for i, ch in enumerate(chains):
+            st = [r for r in got["stages"] if r[0] == i]
+            if not st:
+                if i in dec_model and not refused and got["stage_probe"]:
+                    broken.append(Broken("correspondence", "c12.sz_chain", f"folder {i}: no stage observed, model decodes it", case=case))
+                continue
+            names_ = list(reversed(ch)) if ch else ["lzma"]
+            real_total = sum(sz for _, sz in folders[i])
+            creqs.append({"op": "c12.sz_chain", "packed": st[0][2], "max_output": dec_model.get(i),
+                          "stages": [({"kind": "decoder", "real": real_total} if c in ("lzma", "lzma2") else
+                                      {"kind": "filter"} if c in ("copy", "bcj") else {"kind": "unsupported"}) for c in names_]})
+            cexp.append((case, i, [r[3] for r in st if r[3] is not None], [r[1] for r in st], names_, i in dec_model))
+    couts = ctx.drive(creqs)
+    for (case, i, real, real_names, names_, decodes), o in zip(cexp, couts):
+        if "drv_error" in o or not decodes or o["outputs"] != real or real_names != names_[:len(real_names)]:
+            broken.append(Broken("correspondence", "c12.sz_chain", f"folder {i}: stages {real_names} yield {real}, model {names_} {o} "
+                                 f"(decoded by the model: {decodes})", case=case))
+
     # ---- ODS sheet shapes
     reqs, exp = [], []
     for _ in range(ctx.n(40, 600)):
@@ -295,8 +433,10 @@ def correspondence(ctx):
     broken += _limits_correspondence(ctx)
     broken += XC.correspondence(ctx, Broken)
     ctx.sample({"loops": sorted(k for k in ctx.dist if k.startswith("loops/"))[:8]})
-    # the package oracle for entity constructs runs on every check (see builders/c12_xmlcheck.py for why)
-    return {"broken": broken, "violations": XC.sweep(ctx, Violation)}
+    # the package oracle for entity constructs runs on every check (see builders/c12_xmlcheck.py for why); so does the
+    # archive oracle (duplicate member names, coder chains): a change there leaves results and unique-name / single-coder
+    # archives alone, so nothing else would call for a search
+    return {"broken": broken, "violations": XC.sweep(ctx, Violation) + _oracle_archives(ctx)}
 
 
 # ============================================================================ oracle (property statement on the real code)
@@ -556,6 +696,136 @@ def _oracle_members(ctx, only_7z=False):
     return out
 
 
+# ---- archives whose member names repeat; 7z folders with a coder chain (judged on the real code, no model involved)
+def _named_violations(kind, lim, entries):
+    """the statement on a ZIP / TAR archive of regular members (names may repeat): no handle delivers more than the
+    per-member limit, nothing goes to disk, every member within the limit is processed — once, with ITS bytes"""
+    from sharepoint2text.parsing.extractors import archive_extractor as A
+    eff = lim if lim is not None else A.ArchiveConfig().max_memory_size
+    if sum(e["size"] for e in entries) > 40 * MB:
+        return [Violation("harness.unsafe-input", "refusing an archive payload above 40 MB", {}, found_input=False)]
+    if kind == "zip":
+        data = X.zip_archive(entries)
+        got = X.zip_loop(lim, data)
+        reads = [(h[2], h[3]) for h in got["handles"]]
+        via = {h[2]: h[0] for h in got["handles"]}
+    else:
+        data = X.tar_archive([{"name": e["name"], "type": "reg", "size": e["size"]} for e in entries])
+        got = X.tar_loop(lim, data)
+        reads, via = got["chunks"], {}
+    rep = {"kind": "named_members", "archive": kind, "limit": lim, "entries": entries}
+    dup = len({e["name"] for e in entries}) < len(entries)
+    key = f"limit.member.{kind}" + ("-duplicate-name" if dup else "")
+    listing = ", ".join(f"{e['name']}: {e['size']}" for e in entries)
+    out = []
+    if any(n < 0 for _, n in reads):
+        out.append(Violation(key, f"{kind} [{listing}]: the member loop called extract / extractall (members go to disk unchecked)", rep))
+    over = [(nm, n) for nm, n in reads if n > eff]
+    if over:
+        nm, n = over[0]
+        out.append(Violation(key, f"{kind} archive ({len(data)} bytes) with entries [{listing}] and per-member limit {eff}: the loop inflated {n} bytes "
+                             f"into memory for {nm!r}" + (f" (opened by {via[nm]})" if nm in via else "") + f" (all reads: {reads}); the statement says "
+                             "members above the limit are skipped without being decompressed" +
+                             (" — the size tested belongs to an earlier entry of the same name" if dup else ""), rep))
+    want = [(e["name"], e["size"]) for e in entries if e["size"] <= eff]
+    if not out and got["err"] is None and sorted(reads) != sorted(want):
+        total, once = sum(n for _, n in reads), sum(n for _, n in want)
+        if total > once:
+            out.append(Violation(key + "-multiplied", f"{kind} [{listing}] limit {eff}: the members within the limit hold {once} bytes, the loop read "
+                                 f"{total} ({reads}): an entry is read again for every entry that shares its name", rep))
+        else:
+            out.append(Violation(key, f"{kind} [{listing}] limit {eff}: read {reads}, the statement says exactly the members within the limit "
+                                 f"are processed ({want})", rep))
+    if got["err"] is not None:
+        out.append(Violation(key, f"{kind} [{listing}]: extraction failed: {got['err']}", rep))
+    return out
+
+
+def _chain_violations(lim, folders, chains):
+    """the statement on a 7z archive (folders with coder chains, names may repeat): a skipped member is neither written nor
+    handed on, and NO STAGE of a folder's chain — nor any lzma decoder call — yields more than the members up to the last
+    wanted one need; a folder without a wanted member is not decoded at all"""
+    from sharepoint2text.parsing.extractors import archive_extractor as A
+    eff = lim if lim is not None else A.ArchiveConfig().max_memory_size
+    if sum(sz for f in folders for _, sz in f) > 40 * MB:
+        return [Violation("harness.unsafe-input", "refusing a 7z payload above 40 MB", {}, found_input=False)]
+    got = X.sevenzip_extract(lim, folders, chains=chains)
+    rep = {"kind": "7z_chain", "limit": lim, "folders": [[[nm, sz] for nm, sz in f] for f in folders], "chains": chains}
+    desc = "; ".join("[" + ", ".join(f"{nm}: {sz}" for nm, sz in f) + "] " + ("<-".join(ch) if ch else "lzma") for f, ch in zip(folders, chains))
+    refused = any(ch and any(c not in SZ_DECODABLE for c in ch) for ch in chains)
+    out = []
+    needed = []
+    for f in folders:
+        off, need = 0, 0
+        for nm, sz in f:
+            off += sz
+            if nm.endswith(".txt") and sz <= eff:
+                need = off
+        needed.append(need)
+    chained = any(ch and len(ch) > 1 for ch in chains)
+    for what, obs in (("stage", [(r[0], r[3], r[1]) for r in got["stages"] if r[3] is not None]), ("lzma decoder call", [(i, n, "lzma") for i, n in got["lzma_out"]])):
+        for i, n, coder in obs:
+            if 0 <= i < len(folders) and n > needed[i]:
+                out.append(Violation("7z.chain-stage-beyond-needed" if chained else "7z.folder-decoded-beyond-needed",
+                                     f"7z ({got['archive_len']} bytes) {desc}, per-member limit {eff}: folder {i} needs {needed[i]} bytes "
+                                     f"(end of its last wanted member), but the {coder} {what} produced {n} bytes "
+                                     f"(all stages: {[(r[1], r[3]) for r in got['stages']]}): a skipped member was decompressed into memory", rep))
+                break
+        if out:
+            break
+    over_w = sorted(nm for nm, n in got["written"].items() if n > eff)
+    over_e = [(nm, n) for nm, n in got["entries"] if n > eff]
+    if over_w or over_e:
+        out.append(Violation("7z.oversize-member-decoded-and-written", f"7z {desc} limit {eff}: oversize members written {over_w} / handed on {over_e}", rep))
+    if not refused and got["err"] is None:
+        want = sorted(sz for f in folders for nm, sz in f if nm.endswith(".txt") and sz <= eff)
+        names = [nm for f in folders for nm, _ in f]
+        if len(set(names)) == len(names) and sorted(n for _, n in got["entries"]) != want:
+            out.append(Violation("limit.member.7z", f"7z {desc} limit {eff}: members handed on {got['entries']}, the statement says exactly "
+                                 f"the members within the limit ({want})", rep))
+    if (got["err"] is not None) != refused:
+        out.append(Violation("limit.member.7z", f"7z {desc}: extraction " + (f"failed: {got['err']}" if got["err"] else "did not refuse a filter the library does not implement"), rep))
+    return out
+
+
+def _archive_cases():
+    """(kind, args) of the fixed oracle inputs: sizes follow the limit in force, nothing else"""
+    from sharepoint2text.parsing.extractors import archive_extractor as A
+    cases = []
+    for lim in (1000, None):
+        eff = lim if lim is not None else A.ArchiveConfig().max_memory_size
+        shapes = [[("report.txt", 27), ("report.txt", eff + 1)], [("report.txt", eff + 1), ("report.txt", 27)]]
+        if lim is not None:
+            shapes += [[("a.txt", eff - 1), ("b.txt", 5), ("a.txt", eff), ("a.txt", eff + 1)], [("a.txt", 1), ("a.txt", 2), ("a.txt", eff)],
+                       [("d/a.txt", 9), ("a.txt", 2 * eff), ("d/a.txt", 3 * eff)]]
+        for sh in shapes:
+            for kind in ("zip", "tar"):
+                cases.append(("named", (kind, lim, [{"name": nm, "size": sz} for nm, sz in sh])))
+        chains = (SZ_CHAINS[1:] + SZ_REFUSED_CHAINS) if lim is not None else [["bcj", "lzma2"]]
+        for ch in chains:
+            cases.append(("chain", (lim, [[("note.txt", 23), ("big.txt", eff + 1)]], [ch])))
+        if lim is not None:
+            cases += [("chain", (lim, [[("a.txt", 10), ("skipped.bin", 3 * eff), ("tail.bin", 7)], [("only.bin", 2 * eff)], [("over.txt", eff + 1)]],
+                                 [["bcj", "lzma2"], ["bcj", "lzma"], ["copy", "lzma2"]])),
+                      ("chain", (lim, [[("a.txt", 10)], [("a.txt", eff + 1)]], [None, ["bcj", "lzma2"]])),
+                      ("chain", (lim, [[("a.txt", eff + 1)], [("a.txt", 10)]], [["bcj", "lzma"], None])),
+                      ("chain", (lim, [[("a.txt", 10), ("a.txt", eff + 1)]], [["bcj", "lzma2"]]))]
+    return cases
+
+
+def _oracle_archives(ctx):
+    if getattr(ctx, "_c12_archives", None) is not None:
+        return list(ctx._c12_archives)
+    out = []
+    for kind, args in _archive_cases():
+        for v in (_named_violations(*args) if kind == "named" else _chain_violations(*args)):
+            if not any(w.key == v.key for w in out):
+                out.append(v)
+        ctx.count("oracle/archives/" + kind)
+    ctx._c12_archives = out
+    return list(out)
+
+
 def _oracle_amplification(ctx):
     out = []
     # 7z declared file count
@@ -709,7 +979,13 @@ def search(ctx, broken):
                     extra.append((nm, bytes.fromhex(inp)))
                 except ValueError:
                     pass
-    vs = _oracle_limits(ctx) + _oracle_amplification(ctx) + _oracle_odf_text(ctx) + _oracle_xlsx(ctx) + _oracle_loops(ctx, extra)
+    vs = _oracle_limits(ctx) + _oracle_archives(ctx) + _oracle_amplification(ctx) + _oracle_odf_text(ctx) + _oracle_xlsx(ctx) + _oracle_loops(ctx, extra)
+    for b in broken:        # the generated archives on which model and code disagreed, judged by the statement
+        c = b.case or {}
+        if c.get("kind") == "named_members":
+            vs += _named_violations(c["archive"], c["limit"], c["entries"])
+        elif c.get("kind") == "7z_chain":
+            vs += _chain_violations(c["limit"], [[(nm, sz) for nm, sz in f] for f in c["folders"]], c["chains"])
     vs += XC.sweep(ctx, Violation, full=True)
     # open known findings are reported by known_witnesses(); returning them here would hide a broken obligation
     # for which no NEW failing input exists (run.py then says `no-failing-input-found`)
@@ -788,6 +1064,13 @@ def replay(ctx, payload):
         vs = _tar_link_violations(rep["limit"], rep["members"])
         got = X.tar_loop(rep["limit"], X.tar_archive(rep["members"]))
         return not vs, (vs[0].what if vs else f"every read within the limit and the payload: {got['chunks']}")
+    if kind == "named_members":
+        vs = _named_violations(rep["archive"], rep["limit"], rep["entries"])
+        return not vs, (vs[0].what if vs else f"{rep['archive']} {[(e['name'], e['size']) for e in rep['entries']]}: every read within the limit, "
+                        "every member within the limit processed once with its own bytes")
+    if kind == "7z_chain":
+        vs = _chain_violations(rep["limit"], [[(nm, sz) for nm, sz in f] for f in rep["folders"]], rep["chains"])
+        return not vs, (vs[0].what if vs else f"7z {rep['folders']} chains {rep['chains']}: no stage beyond what the wanted members need, nothing oversize written")
     if kind == "ods_repeat_indep":
         sheets = [[(rr, [(cr, t) for cr, t in cells]) for rr, cells in rep[k]] for k in ("sheet_lo", "sheet_hi")]
         same, msg = _repeat_independence(*sheets)
